@@ -423,6 +423,7 @@ func main() {
 	r.SetBudget(90*time.Second, 15*time.Minute)
 	var err error
 	scratch, err = os.MkdirTemp("/dev/shm", "verif-c16-")
+	ev.AtExit(func() { os.RemoveAll(scratch) })
 	if err != nil {
 		panic(err)
 	}
